@@ -288,6 +288,31 @@ class Module(object):
                         cls.attrs[t.id] = node.value
                         if isinstance(node.value, ast.Name):
                             cls.aliases[t.id] = node.value.id
+                        # m = staticmethod(_module_function): the function is
+                        # the method (a body moved to module level verbatim)
+                        v = node.value
+                        wrap = None
+                        if isinstance(v, ast.Call) and isinstance(
+                                v.func, ast.Name) and v.func.id in (
+                                    'staticmethod', 'classmethod') and \
+                                len(v.args) == 1 and isinstance(
+                                    v.args[0], ast.Name):
+                            wrap, v = v.func.id, v.args[0]
+                        if wrap and isinstance(v, ast.Name) and \
+                                v.id in self.functions and \
+                                self.functions[v.id].cls is None:
+                            import copy as _copy
+                            src = self.functions[v.id].node
+                            twin = _copy.copy(src)
+                            twin.decorator_list = list(src.decorator_list) + [
+                                ast.copy_location(ast.Name(
+                                    id=wrap, ctx=ast.Load()), src)]
+                            twin.name = t.id
+                            twin._parent = getattr(src, '_parent', None)
+                            fi = FuncInfo(self, prefix + t.id, twin, cls,
+                                          func)
+                            self.functions[prefix + t.id] = fi
+                            cls.methods[t.id] = fi
             elif isinstance(node, ast.AnnAssign) and cls is not None and \
                     isinstance(node.target, ast.Name) and node.value:
                 cls.attrs[node.target.id] = node.value
@@ -371,8 +396,20 @@ class Program(object):
         # signature is still the recorded one (sa/tablenorm.py)
         sigs = _effective_signatures(sources)
         sig_key = hash(tuple(sorted((k, tuple(v)) for k, v in sigs.items())))
+        # private names used by more than one module: a new helper with such
+        # a name stays defined after its uses in its own module are expanded
+        import re as _re
+        seen_in = {}
         for name, rel, src in sources:
-            key = (rel, hash(src), len(src), sig_key)
+            for nm in set(_re.findall(r'\b_[A-Za-z][A-Za-z0-9_]*\b', src)):
+                seen_in[nm] = seen_in.get(nm, 0) + 1
+        shared = {nm for nm, k in seen_in.items() if k >= 2}
+        from . import inline as _inline
+        _inline.KEEP_NAMES = shared
+        for name, rel, src in sources:
+            keep_key = hash(tuple(sorted(
+                nm for nm in shared if ('def ' + nm + '(') in src)))
+            key = (rel, hash(src), len(src), sig_key, keep_key)
             m = _PARSE_CACHE.get(key)
             if m is None:
                 m = _PARSE_CACHE[key] = Module(name, rel, src, sigs)
